@@ -87,6 +87,7 @@ def run_case(rng, idx, tier, lane, ctx):
         return {"status": "violated", "sample": sample, "counters": counters, "classes": cls,
                 "witnesses": [{"what": "loss constructor raised on a valid case", "loss": c.kind, "error": short_exc(e), "tb": tb_tail(e)}]}
     tol_x = rs.tol(1e-10)
+    sample["calls_made_before"] = LC.prior_calls(rng, c, obj, counters, k=(0, 2))
     n, p = c.y.shape
     # ---- evaluation points: generating parameters and perturbed ones
     pts = [("generating", list(c.theta), rs)]
